@@ -884,13 +884,16 @@ SIGS = [list(x) for x in SIGS]  # 16 ordered subsets; index 0 = no parameters
 _I = st.integers
 _STATE_CODE = st.tuples(_I(0, 9), _I(0, 3), _I(0, 15), _I(0, 1), _I(0, 2), _I(0, 15), _I(0, 2_000_000), _I(0, 11), _I(0, 1),
                         st.lists(st.tuples(_I(0, 9), _I(0, 4)), max_size=4))
-_SHAPE_CODE = st.tuples(
-    st.lists(_STATE_CODE, min_size=1, max_size=5),
-    _I(0, 4),  # index of the first state
+_SHAPE_TAIL = (
     _I(0, 5),  # inheritance levels code
     _I(0, 2),  # default state present when == 2
     st.tuples(_I(0, 5), _I(0, 15), _I(0, 2), _I(0, 1), st.lists(_I(0, 3), max_size=3)),  # default state: position, sig, lvl, doc, script
-    st.tuples(_I(0, 5), _I(0, 4), _I(0, 4), _I(0, 2), _I(0, 13), _I(0, 15), _I(0, 5)),  # override: present when [0]==5
+    st.tuples(_I(0, 5), _I(0, 4), _I(0, 4), _I(0, 2), _I(0, 13), _I(0, 15), _I(0, 5)),  # override: present when [0]>=4
+)
+_SHAPE_CODE = st.tuples(
+    st.lists(_STATE_CODE, min_size=1, max_size=5),
+    _I(0, 4),  # index of the first state
+    *_SHAPE_TAIL,
 )
 _ADV_CODE = st.tuples(_I(0, 9), _I(0, 11), _I(0, 300_000))
 _ITER_CODE = st.tuples(_I(0, 15), _I(0, 19), _I(0, 4), _I(0, 39), _I(0, 4), _I(0, 13), _I(0, 500_000), _I(0, 3), _ADV_CODE)
@@ -1006,8 +1009,15 @@ def decode_sm_case(code, profile):
     return case
 
 
-def sm_cases(profile):
-    raw = st.tuples(_SHAPE_CODE, st.lists(_ITER_CODE, min_size=4, max_size=45), st.booleans(), _I(0, 5), _I(0, 2))
+def _shape_code(deep):
+    if not deep:
+        return _SHAPE_CODE
+    # thorough tier: up to 7 regular states
+    return st.tuples(st.lists(_STATE_CODE, min_size=1, max_size=7), _I(0, 6), *_SHAPE_TAIL)
+
+
+def sm_cases(profile, deep=False):
+    raw = st.tuples(_shape_code(deep), st.lists(_ITER_CODE, min_size=4, max_size=90 if deep else 45), st.booleans(), _I(0, 5), _I(0, 2))
     return raw.map(lambda c: decode_sm_case(c, profile))
 
 
@@ -1039,8 +1049,8 @@ def decode_auto_case(code):
     return case
 
 
-def auto_cases():
-    raw = st.tuples(_SHAPE_CODE, st.lists(_AUTO_PERIOD, min_size=1, max_size=3), _I(0, 3))
+def auto_cases(deep=False):
+    raw = st.tuples(_shape_code(deep), st.lists(_AUTO_PERIOD, min_size=1, max_size=5 if deep else 3), _I(0, 3))
     return raw.map(decode_auto_case)
 
 
@@ -1063,7 +1073,7 @@ class SMLab(Lab):
         simenv.init()
 
     def strategy(self):
-        return sm_cases(self.pid)
+        return sm_cases(self.pid, deep=self.tier == "thorough")
 
     def classify(self, model, rows, spec):
         raise NotImplementedError
@@ -1186,7 +1196,7 @@ class C13(SMLab):
     )
 
     def strategy(self):
-        return auto_cases()
+        return auto_cases(deep=self.tier == "thorough")
 
     def nontrivial(self, stat, case, spec):
         periods = sum(1 for it in case["hist"] for op in it.get("pre", []) if op[0] == "on_enable")
